@@ -166,7 +166,10 @@ Section SwMatch.
       rewrite (gsdrop_nil_iff ci word El). rewrite memN_In'. split.
       + intro H. exists state. split; [constructor | exact H].
       + intros [s' [Hr Hin]]. apply tok_run_nil_inv in Hr. subst. exact Hin.
-    - apply Nat.leb_gt in El. set (sub := Glob.sdrop ci word).
+    - apply Nat.leb_gt in El.
+      assert (Hsf : star_first Repaired false Tw state = false).
+      { unfold star_first. cbn [quirky negb andb]. destruct (t_mstar Tw) as [stars |] eqn:E0; [apply (Hnostar stars state eq_refl) | reflexivity]. }
+      rewrite Hsf. set (sub := Glob.sdrop ci word).
       destruct (assocN state (t_mlit Tw)) as [st |] eqn:Es.
       + cbn [lit_loop obind]. destruct (lit_loop_str false (indexed_from 0 (literal_texts Tw)) st sub) as [to adv | |] eqn:Ell.
         * apply lit_loop_str_cont in Ell. destruct Ell as [lid [lit [Hin [Ha [Hp ->]]]]].
